@@ -346,7 +346,18 @@ impl IndexManager {
             segment_bits: header_v2.file_offset_bits,
         };
 
-        let entry_size = (header.key_size + header.location_size + header.length_size) as usize;
+        // The three widths are bytes from the file: their sum must itself fit a byte
+        // (save_index adds them the same way), otherwise the header is not an index header
+        let entry_size = header
+            .key_size
+            .checked_add(header.location_size)
+            .and_then(|sum| sum.checked_add(header.length_size))
+            .ok_or_else(|| {
+                StorageError::Index(format!(
+                    "Invalid entry field widths: {} + {} + {}",
+                    header.key_size, header.location_size, header.length_size
+                ))
+            })? as usize;
         Ok((header, entry_size))
     }
 
